@@ -80,11 +80,16 @@ def userAdmits (c : Cfg) (e : Env) (ty : NType) (force : Bool) (uid : Nat) : Boo
     (force || (u.periodOpen && admits u.typeFilter ty.bit &&
       (ty == .recovery || admits u.stateFilter (stateBit c.isHost e.state))))
 
+/-- Does the operation skip a paused notification object?  `SendNotifications` always, the timer only in
+    an HA cluster. -/
+def pausedFor (k : OpKind) (e : Env) : Bool :=
+  match k with | .send => e.paused | .tick => e.paused && e.haSkip
+
 def deliveryEv (c : Cfg) (k : OpKind) (e : Env) (_ : Unit) (ev : Event) : Option Clause × Unit :=
   let force := forceOf k e
   (if !ev.passed then none
    else if !force && !(e.globalEnabled && e.ckEnabled) then some .enableFlags
-   else if (match k with | .send => e.paused | .tick => e.paused && e.haSkip) then some .paused
+   else if pausedFor k e then some .paused
    else if !force && !e.periodOpen then some .notifPeriod
    else if !force && !admits c.typeFilter ev.ty.bit then some .notifTypeFilter
    else if !force && ev.ty == .problem && !admits c.stateFilter (stateBit c.isHost e.state) then some .notifStateFilter
